@@ -35,6 +35,9 @@ MAKERS = {
     "quantized_relu": {"bits": 4, "integer": 1},
     "quantized_relu_leaky": {"bits": 5, "integer": 1, "negative_slope": 0.25},
     "quantized_relu_ub": {"bits": 4, "integer": 2, "is_quantized_clip": False, "relu_upper_bound": 1.5},
+    # a bound *above* the largest code (0.9375): surrogate and quantized value saturate at different levels
+    "quantized_relu_ub_above": {"bits": 4, "integer": 0, "is_quantized_clip": False, "relu_upper_bound": 1.5},
+    "quantized_relu_noclip": {"bits": 4, "integer": 0, "is_quantized_clip": False},
     "quantized_po2": {"bits": 4},
     "quantized_po2_mv": {"bits": 5, "max_value": 2.0},
     "quantized_relu_po2": {"bits": 4, "max_value": 2},
